@@ -195,3 +195,155 @@ def pile_nav_inv(v):
     up = v.candidates.step < 0
     passed = forall(v.i - v.i_, v.i, lambda p: neg(sel(p))) if up else forall(v.i + 1, v.i + 1 + v.i_, lambda p: neg(sel(p)))
     return both(v.self._contents._focus == v.i, 0 <= v.i, v.i < Q.seq_len(items), passed)
+
+
+# ============================================================================================ Columns
+from urwid.widget import columns as _columns  # noqa: E402
+
+CO = "urwid/widget/columns.py:"
+CITEM = Tup(Opaque("Widget"), Tup(Atom("pack", "given", "weight"), Opt(Int), Bool))
+CCONTENTS = Obj(_mlmod.MonitoredFocusList, dict(items=ListOf(CITEM), _focus=Int), base_list="items")
+COLUMNS = Obj(_columns.Columns, dict(_contents=CCONTENTS, _selectable=Bool, pref_col=Opt(Int), _cache_maxcol=Opt(Int)))
+CINL = (CO + "Columns.contents",)
+
+
+@contract(CO + "Columns._invalidate", property=(), assumed=True, notes="drops the cached column widths and this widget's cached canvases (C06); logged")
+class col_invalidate:
+    self_shape = COLUMNS
+    log_event = "_invalidate"
+
+
+@contract(CO + "Columns.focus_position", property="C08", inline=CINL, replayable=False)
+class col_fp_get:
+    self_shape = COLUMNS
+    result = Int
+    raises = (IndexError,)
+    invariant = staticmethod(pile_ri)
+    raises_iff = {IndexError: lambda s, a: n_items(s) == 0}
+
+    def ensures(old, s, a, result):
+        yield "non-empty", n_items(old) > 0
+        yield "a-valid-position", both(0 <= result, result < n_items(old), result == old._contents._focus)
+
+    def on_raise(old, s, a, exc):
+        yield "only-when-empty", n_items(old) == 0
+
+
+@contract(CO + "Columns.focus_position.setter", property="C08", inline=CINL, replayable=False)
+class col_fp_set:
+    self_shape = COLUMNS
+    params = dict(position=Int)
+    raises = (IndexError,)
+    invariant = staticmethod(pile_ri)
+    raises_iff = {IndexError: lambda s, a: either(a.position < 0, a.position >= n_items(s))}
+
+    def ensures(old, s, a, result):
+        yield "was-a-valid-position", both(0 <= a.position, a.position < n_items(old))
+        yield "focus-is-that-child", s._contents._focus == a.position
+        yield "contents-untouched", n_items(s) == n_items(old)
+
+    def on_raise(old, s, a, exc):
+        yield "only-for-an-invalid-position", either(a.position < 0, a.position >= n_items(old))
+        yield "nothing-written", both(s._contents._focus == old._contents._focus, n_items(s) == n_items(old))
+
+    def effects(old, s, a, result):
+        s._contents.fields["_focus"] = a.position
+
+
+@contract(CO + "Columns.focus", property="C08", inline=CINL, replayable=False)
+class col_focus:
+    self_shape = COLUMNS
+    result = Opt(Opaque("Widget"))
+    invariant = staticmethod(pile_ri)
+
+    def ensures(old, s, a, result):
+        if n_items(old) == 0:
+            yield "no-focus-when-empty", is_none(result)
+        else:
+            yield "focus-is-the-child-at-the-focus-position", both(neg(is_none(result)), eq(val(result), item_at(old, old._contents._focus)[0]) if not is_none(result) else False)
+
+
+@contract(CO + "Columns._contents_modified", property="C08", inline=CINL, replayable=False)
+class col_contents_modified:
+    self_shape = COLUMNS
+    invariant = staticmethod(pile_ri)
+
+    def ensures(old, s, a, result):
+        W = PROTOCOLS["Widget"]
+        st = cur()
+        n = n_items(old)
+        sel = lambda j: W.call_quiet(st, item_at(old, j)[0], "selectable", {})  # noqa: E731
+        if s._selectable:
+            yield "selectable-only-if-a-child-is", neg(forall(0, n, lambda j: neg(sel(j))))
+        else:
+            yield "unselectable-only-if-no-child-is", forall(0, n, lambda j: neg(sel(j)))
+        yield "invalidated", count_ev(s.trace, "_invalidate") == 1
+
+
+@contract(CO + "Columns.get_column_sizes", property=(), assumed=True, deterministic=True,
+          notes="(widths, heights, size arguments) of the visible columns (C19/C01 own the values); the number of entries is at most the number of children")
+class col_gcs:
+    self_shape = COLUMNS
+    params = dict(size=Opaque("SizeArg"), focus=Bool)
+    result = Tup(ListOf(Dim, tuple_=True), ListOf(Dim, tuple_=True), ListOf(Opaque("SizeArg"), tuple_=True))
+
+    def ensures(old, s, a, result):
+        n = n_items(old)
+        m = Q.seq_len(result[0])
+        yield "aligned-with-the-children", both(m <= n, Q.seq_len(result[1]) == m, Q.seq_len(result[2]) == m)
+
+
+@contract(CO + "Columns.keypress", property="C08", replayable=False, inline=CINL)
+class col_keypress:
+    self_shape = COLUMNS
+    params = dict(size=Opaque("SizeArg"), key=Opaque("Key"))
+    result = Opt(Opaque("Key"))
+    invariant = staticmethod(pile_ri)
+    missing_field = staticmethod(_missing)
+
+    def ensures(old, s, a, result):
+        st = cur()
+        n = n_items(old)
+        kp = [e for e in st.trace if e[0] == "call" and e[2] == "keypress"]
+        if n == 0:
+            yield "empty-container-returns-the-key", both(len(kp) == 0, opt_eq(result, a.key))
+            return
+        f0 = old._contents._focus
+        focus_child = item_at(old, f0)[0]
+        yield "offered-to-no-one-but-the-focus-child", both(len(kp) <= 1, eq(kp[0][1], focus_child) if kp else True, eq(kp[0][3]["key"], a.key) if kp else True)
+        shown = Q.seq_len(col_gcs.spec_value(old, size=a.size, focus=True)[0])
+        if f0 >= shown:
+            yield "focus-column-not-displayed-key-comes-back", both(len(kp) == 0, opt_eq(result, a.key), s._contents._focus == f0)
+            return
+        W = PROTOCOLS["Widget"]
+        sel = lambda j: W.call_quiet(st, item_at(old, j)[0], "selectable", {})  # noqa: E731
+        yield "offered-iff-the-focus-child-is-selectable", eq(len(kp) == 1, sel(f0))
+        key2 = kp[0][4] if kp else a.key
+        cmd = command_of(key2) if not is_none(key2) else None
+        nav = (cmd is not None) and bool(either(cmd == "cursor left", cmd == "cursor right"))
+        if not nav:
+            yield "child-result-returned-unchanged", opt_eq(result, key2)
+            yield "focus-unchanged", s._contents._focus == f0
+            return
+        left = bool(cmd == "cursor left")
+        f1 = s._contents._focus
+        if is_none(result):
+            yield "moved-to-a-selectable-child-in-that-direction", both(sel(f1), f1 < f0 if left else f1 > f0)
+            yield "the-nearest-one", forall(imin(f0, f1) + 1, imax(f0, f1), lambda j: neg(sel(j)))
+        else:
+            yield "no-selectable-child-that-way-key-comes-back", both(opt_eq(result, key2), f1 == f0,
+                                                                       forall(0, f0, lambda j: neg(sel(j))) if left else forall(f0 + 1, n, lambda j: neg(sel(j))))
+
+    loops = {0: Loop(invariant=lambda v: col_nav_inv(v))}
+
+
+def col_nav_inv(v):
+    st = cur()
+    W = PROTOCOLS["Widget"]
+    items = v.self._contents.items
+    sel = lambda p: W.call_quiet(st, Q.seq_get(items, p)[0], "selectable", {})  # noqa: E731
+    cands = v.candidates.seq if hasattr(v.candidates, "seq") else v.candidates
+    cands = getattr(cands, "range", cands)
+    left = cands.step < 0
+    passed = forall(v.i - v.i_, v.i, lambda p: neg(sel(p))) if left else forall(v.i + 1, v.i + 1 + v.i_, lambda p: neg(sel(p)))
+    return both(v.self._contents._focus == v.i, 0 <= v.i, v.i < Q.seq_len(items), passed)
